@@ -196,6 +196,8 @@ static void tail_case(uint64_t idx, Bytes &dg, std::string &label) {
 // ------------------------------------------------------------------------------------------------
 // worker
 static uint64_t g_shard = 0, g_nshards = 1; static double g_deadline = 0;
+// hashed sharding: expensive datagrams (QR=1, rcode 0, garbage counts) would otherwise all fall into the same residue class
+static inline bool mine(uint64_t i) { return (((uint32_t)i * 2654435761u) >> 11) % g_nshards == g_shard; }
 static char g_altstack[65536];
 static void on_segv(int, siginfo_t *si, void *uc) {
   uintptr_t sp = (uintptr_t)((ucontext_t *)uc)->uc_mcontext.gregs[REG_RSP], fa = (uintptr_t)si->si_addr;
@@ -209,8 +211,9 @@ static void *worker_thread(void *arg) {
   struct sigaction sa; memset(&sa, 0, sizeof sa); sa.sa_sigaction = on_segv; sa.sa_flags = SA_SIGINFO | SA_ONSTACK; sigaction(SIGSEGV, &sa, nullptr); sigaction(SIGBUS, &sa, nullptr);
 #endif
   Bytes dg; std::string label;
-  for (uint64_t i = start; i < g_ncases; i += g_nshards) {
-    if ((shm->done & 1023) == 0 && real_now_s() > g_deadline) { shm->capped = 1; break; }
+  for (uint64_t i = start; i < g_ncases; i++) {
+    if (!mine(i)) continue;
+    if ((shm->done & 255) == 0 && real_now_s() > g_deadline) { shm->capped = 1; break; }
     shm->cur = i; shm->phase = 0;
     const Bytes *pd; const std::string *pl;
     if (g_tail) { tail_case(i, dg, label); pd = &dg; pl = &label; } else { pd = &g_cases[i].dg; pl = &g_cases[i].label; }
@@ -255,7 +258,7 @@ int main(int argc, char **argv) {
   if (!g_tail && g_shard == 0) for (auto &B : bases()) { Strict st = ref_strict(B.b.data(), B.b.size());
     if (st.shape != "well-formed" || st.a != B.expect.a || st.c != B.expect.c) { printf("@VIOL sig=harness-selftest-strict-decoder-disagrees-with-base :: %s %s\n", B.name, hex(B.b).c_str()); } }
   int errfd = (int)syscall(SYS_memfd_create, "c15err", 0);
-  uint64_t start = g_shard; uint64_t crashes = 0; int spawned = 0;
+  uint64_t start = 0; uint64_t crashes = 0; int spawned = 0;
   while (start < g_ncases && !shm->capped) {
     int r = ftruncate(errfd, 0); (void)r; lseek(errfd, 0, SEEK_SET);
     shm->finished = 0; shm->death = 0; shm->cur = start;
@@ -273,6 +276,7 @@ int main(int argc, char **argv) {
     if (shm->capped) break;
     // the worker died while evaluating case shm->cur
     uint64_t at = shm->cur; crashes++;
+    if (at >= g_ncases || !mine(at)) { printf("@VIOL sig=harness-worker-died-outside-a-case :: cursor=%lu status=%d\n", (unsigned long)at, st); break; }
     Bytes dg; std::string label; if (g_tail) tail_case(at, dg, label); else { dg = g_cases[at].dg; label = g_cases[at].label; }
     std::string err = slurp(errfd), effect, detail;
     Strict sx = ref_strict(dg.data(), dg.size()); std::string shape = sx.shape == "well-formed" ? "well-formed-reply" : sx.shape;
@@ -289,9 +293,9 @@ int main(int argc, char **argv) {
     violation("dns-" + shape + "-" + effect, label, dg, std::string(ph) + (detail.empty() ? "" : "; " + detail));
     outcome(label.substr(0, label.find(' ')) + " -> " + effect);
     shm->done++;
-    start = at + g_nshards;
+    start = at + 1;
   }
-  if (shm->capped) printf("@CAP %s shard %lu/%lu: deadline reached after %lu of ~%lu datagrams\n", g_tagname.c_str(), (unsigned long)g_shard, (unsigned long)g_nshards, (unsigned long)shm->done, (unsigned long)((g_ncases - g_shard + g_nshards - 1) / g_nshards));
+  if (shm->capped) printf("@CAP %s shard %lu/%lu: deadline reached after %lu of ~%lu datagrams\n", g_tagname.c_str(), (unsigned long)g_shard, (unsigned long)g_nshards, (unsigned long)shm->done, (unsigned long)(g_ncases / g_nshards));
   for (auto &e : shm->outs) if (e.txt[0]) printf("@OUTCOME parser %s n=%lu [%s shard %lu]\n", e.txt, (unsigned long)e.n, g_tagname.c_str(), (unsigned long)g_shard);
   for (auto &e : shm->sigs) if (e.sig[0]) printf("@INFO %s shard %lu: %lu datagrams with signature %s\n", g_tagname.c_str(), (unsigned long)g_shard, (unsigned long)e.n, e.sig);
   bool plain = std::string(BUILD_TAG) == "plain";   // distinct datagrams are counted once (plain build); the ASan build re-evaluates a subset
